@@ -94,6 +94,14 @@ async def drive(ctx: Any, d: vecu.Driver, requests: Any, tag: str, cfg: dict[str
         if raw and iso.request_wellformed(q):
             ctx.violation(f"parse/wellformed-request-treated-as-unparsable/sid-{q[0]:02x}" + (f".{q[1] & 0x7F:02x}" if q[0] in (0x19, 0x2C, 0x31) and len(q) > 1 else "") + ("/suppress-bit" if iso.suppress_requested(q) else ""),
                           "a request that is well-formed by ISO 14229-1 is not parsed by the ECU, so the 'unparsable request' rule would answer it", {**cfg, "request": q})
+        if not raw and not iso.request_wellformed(q):
+            if q[0] == 0x3D:
+                # WriteMemoryByAddress: gallia does not compare the data record with memorySize (a tester may want to send such a request)
+                ctx.reach("parse.lenient-3d")
+            else:
+                ctx.violation(f"parse/malformed-request-treated-as-parsable/sid-{q[0]:02x}", "a request with an incorrect length / format by ISO 14229-1 is parsed as a typed request, so the "
+                              "'incorrect message length or invalid format' rule never answers it", {**cfg, "request": q})
+        ctx.reach("parse.compared-with-reference")
         before = (m.S, m.sec)
         try:
             reply, _ = await d.transport.handle_request(q)
